@@ -279,9 +279,6 @@ structure Crew (C : NetCfg) (v : Nat) (R : List Nat) : Prop where
   nodup : R.Nodup
   notLeader : ldr C v ∉ R
   nonempty : R ≠ []
-  /-- no non-leader is alone in `R` (with a single non-leader whose weight together with the leader's is a
-  quorum, "its own PREPARE is logged but it is not prepared" is not a reachable state, but that is not proved here) -/
-  two : ∀ j ∈ R, ∃ k ∈ R, k ≠ j
   good : ∀ k ∈ R ++ [ldr C v], C.honest k = true ∧ ∃ m ∈ C.ms, m.id = k
   quorum : isQuorum (C.cfg 0) (R ++ [ldr C v]) = true
 
@@ -363,9 +360,13 @@ theorem gate_commit (j k : Nat) (hkj : k ≠ j) (v hash : Nat) :
 
 /-- before the PREPARE phase: the member holds the proposal in view `v`, its own PREPARE is logged
 (non-leaders) -/
-def Pre1 (C : NetCfg) (v hash : Nat) (b : Block) (R : List Nat) (j : Nat) (n : Node) (_ : List Out) : Prop :=
+def Pre1 (C : NetCfg) (v hash : Nat) (b : Block) (R : List Nat) (j : Nat) (n : Node) (outs : List Out) : Prop :=
   j ∈ R ++ [ldr C v] ∧ Holds C v hash b j n ∧ n.view = v
   ∧ (j ≠ ldr C v → (C.height, v, hash, j) ∈ n.store.prepares.map C11.pkey)
+  -- a follower's position right after it accepted the proposal (`C05.accepted_state`): its COMMIT is out,
+  -- or it is prepared, or the PREPARE of some crew member is still missing from its log
+  ∧ (j ≠ ldr C v → CommitSentAt C v hash j n outs ∨ n.prepared = some v
+      ∨ ∃ id ∈ R, (C.height, v, hash, id) ∉ n.store.prepares.map C11.pkey)
 
 def Post1 (C : NetCfg) (v hash : Nat) (b : Block) (R : List Nat) (j : Nat) (n : Node) (outs : List Out) : Prop :=
   j ∈ R ++ [ldr C v] ∧ Holds C v hash b j n ∧ CommitSentAt C v hash j n outs
@@ -384,9 +385,12 @@ variable (hwf : WF C) (v hash : Nat) (b : Block) (R : List Nat) (crew : Crew C v
 include hwf crew in
 theorem turn1 (net : Net) (j : Nat) (hr : Reach C net) (hside : Side1 C v hash R net) (hpre : Pre1 C v hash b R j (net.node j) (net.outs j)) :
     ∃ net', Reach C net' ∧ Post1 C v hash b R j (net'.node j) (net'.outs j) ∧ Frame net net' j := by
-  obtain ⟨hjm, hholds, hview, hown⟩ := hpre
+  obtain ⟨hjm, hholds, hview, hown, hsettled⟩ := hpre
   obtain ⟨hhj, hmj⟩ := crew.good j hjm
   obtain ⟨ppm, hg, hb, hh, hsender⟩ := hholds.pp
+  -- its COMMIT is out already
+  by_cases hcsent : CommitSentAt C v hash j (net.node j) (net.outs j)
+  · exact ⟨net, hr, ⟨hjm, hholds, hcsent⟩, ⟨fun _ _ => ⟨rfl, rfl⟩, fun _ => rfl, fun _ h => h, fun _ h => h⟩⟩
   -- already prepared in view v: its COMMIT is logged and sent (`reach_sent`)
   by_cases hprep : (net.node j).prepared = some v
   · obtain ⟨p0, hg0, hk0, rs, hs0⟩ := (reach_sent hr j).prepared v hprep
@@ -451,7 +455,12 @@ theorem turn1 (net : Net) (j : Nat) (hr : Reach C net) (hside : Side1 C v hash R
       -- there is a member of `R` other than `j`
       obtain ⟨k, hk, hkj⟩ : ∃ k ∈ R, k ≠ j := by
         by_cases hjR : j ∈ R
-        · exact crew.two j hjR
+        · -- a follower with every PREPARE of the crew logged is prepared (or has committed): `Pre1`
+          exfalso
+          rcases hsettled (fun e => crew.notLeader (e ▸ hjR)) with hcs | hp | ⟨id, hid, hmissing⟩
+          · exact hcsent hcs
+          · exact hprep hp
+          · exact hmissing (hall id hid)
         · obtain ⟨r0, hr0⟩ := List.exists_mem_of_ne_nil R crew.nonempty
           exact ⟨r0, hr0, fun e => hjR (e ▸ hr0)⟩
       have hne : pms ≠ [] := by
@@ -662,7 +671,7 @@ theorem turn0 (net : Net) (j : Nat) (hr : Reach C net) (hside : Side0 C v R nv n
   have hsend : Out.send (others (C.cfg j)) (.prepare (ownPrepare (C.cfg j) C.height v nv.pp.header.hash)) ∈ net'.outs j := by
     rw [e2]; apply List.mem_append_right
     have := s5; rw [hcfg] at this; exact this
-  refine ⟨net', hr', ⟨⟨hjm, ?_, ?_, ?_⟩, hsend⟩, ⟨fr, st, by intro o ho; rw [e2]; exact List.mem_append_left _ ho, hh⟩⟩
+  refine ⟨net', hr', ⟨⟨hjm, ?_, ?_, ?_, ?_⟩, hsend⟩, ⟨fr, st, by intro o ho; rw [e2]; exact List.mem_append_left _ ho, hh⟩⟩
   · -- Holds
     refine ⟨by rw [e1, s1]; exact hcfg, ⟨⟨nv.pp, nv.block⟩, by rw [e1]; exact s3, hshape.block, rfl, ?_⟩, by rw [e1]; exact hlive⟩
     show nv.pp.sender.id = ldr C v
@@ -671,6 +680,13 @@ theorem turn0 (net : Net) (j : Nat) (hr : Reach C net) (hside : Side0 C v R nv n
   · intro _
     rw [e1]
     have := s4; rw [hcfg] at this; exact this
+  · intro _
+    rcases s6 with hcs | ⟨hnp, id, hid, hmiss⟩
+    · left
+      rw [hcfg] at hcs
+      exact ⟨by rw [e1]; exact hcs.1, _, by rw [e2]; exact List.mem_append_right _ hcs.2⟩
+    · right; right
+      exact ⟨id, hid, by rw [e1]; exact hmiss⟩
 
 include hwf crew hshape in
 /-- **From the leader's NEW_VIEW to a decision.**  In any reachable state (schedule so far obeying A2)
@@ -696,7 +712,7 @@ theorem good_view_from_newview {net : Net} (hr : Reach C net) (hA2 : TraceA2 net
     have hcfgL := C11Net.node_cfg hwf hr (ldr C v) hhL hmL
     have hst := (reach_sent hr (ldr C v)).newViews rs nv hsent
     rw [hcfgL, hshape.view] at hst
-    refine ⟨List.mem_append_right _ (List.mem_singleton.mpr rfl), ⟨hcfgL, ⟨⟨nv.pp, nv.block⟩, hst, hshape.block, rfl, ?_⟩, hllive⟩, hlview, fun h => absurd rfl h⟩
+    refine ⟨List.mem_append_right _ (List.mem_singleton.mpr rfl), ⟨hcfgL, ⟨⟨nv.pp, nv.block⟩, hst, hshape.block, rfl, ?_⟩, hllive⟩, hlview, fun h => absurd rfl h, fun h => absurd rfl h⟩
     show nv.pp.sender.id = ldr C v
     rw [hshape.ppSender, hshape.sender]
   -- the NEW_VIEW is a valid certificate for every follower (C11Net)
@@ -787,12 +803,19 @@ theorem turn0pp (net : Net) (j : Nat) (hr : Reach C net) (hside : Side0pp C v R 
   have hsend : Out.send (others (C.cfg j)) (.prepare (ownPrepare (C.cfg j) C.height v ppm.c.header.hash)) ∈ net'.outs j := by
     rw [e2]; apply List.mem_append_right
     have := s5; rw [hcfg] at this; exact this
-  refine ⟨net', hr', ⟨⟨hjm, ?_, ?_, ?_⟩, hsend⟩, ⟨fr, st, by intro o ho; rw [e2]; exact List.mem_append_left _ ho, hh⟩⟩
+  refine ⟨net', hr', ⟨⟨hjm, ?_, ?_, ?_, ?_⟩, hsend⟩, ⟨fr, st, by intro o ho; rw [e2]; exact List.mem_append_left _ ho, hh⟩⟩
   · exact ⟨by rw [e1, s1]; exact hcfg, ⟨ppm, by rw [e1]; exact s3, hshape.block, rfl, hshape.sender⟩, by rw [e1]; exact hlive⟩
   · rw [e1]; exact s2
   · intro _
     rw [e1]
     have := s4; rw [hcfg] at this; exact this
+  · intro _
+    rcases s6 with hcs | ⟨hnp, id, hid, hmiss⟩
+    · left
+      rw [hcfg] at hcs
+      exact ⟨by rw [e1]; exact hcs.1, _, by rw [e2]; exact List.mem_append_right _ hcs.2⟩
+    · right; right
+      exact ⟨id, hid, by rw [e1]; exact hmiss⟩
 
 include hwf crew hshape in
 /-- **From the leader's PREPREPARE to a decision** (the normal case: view 0, or any view in which the
@@ -808,7 +831,7 @@ theorem good_view_from_preprepare {net : Net} (hr : Reach C net) (hside : Side0p
     have hcfgL := C11Net.node_cfg hwf hr (ldr C v) hhL hmL
     have hst := (reach_sent hr (ldr C v)).preprepares rs ppm hsent
     rw [hcfgL, hshape.view] at hst
-    exact ⟨List.mem_append_right _ (List.mem_singleton.mpr rfl), ⟨hcfgL, ⟨ppm, hst, hshape.block, rfl, hshape.sender⟩, hllive⟩, hlview, fun h => absurd rfl h⟩
+    exact ⟨List.mem_append_right _ (List.mem_singleton.mpr rfl), ⟨hcfgL, ⟨ppm, hst, hshape.block, rfl, hshape.sender⟩, hllive⟩, hlview, fun h => absurd rfl h, fun h => absurd rfl h⟩
   obtain ⟨n0, hr0, hs0, hpost0, hsame0, hst0, hle0⟩ := sweep (C := C) (Pre0pp C v R ppm spi)
     (fun j n outs => Pre1 C v ppm.c.header.hash b R j n outs
       ∧ Out.send (others (C.cfg j)) (.prepare (ownPrepare (C.cfg j) C.height v ppm.c.header.hash)) ∈ outs)
@@ -855,12 +878,6 @@ theorem exCrew : Crew exC 0 [2, 3] where
   nodup := by decide
   notLeader := by decide
   nonempty := by decide
-  two := by
-    intro j hj
-    have : j = 2 ∨ j = 3 := by simpa using hj
-    rcases this with rfl | rfl
-    · exact ⟨3, by decide, by decide⟩
-    · exact ⟨2, by decide, by decide⟩
   good := by
     intro k hk
     have : k = 2 ∨ k = 3 ∨ k = 1 := by
@@ -887,9 +904,11 @@ theorem ex_good_view : ∃ net, Reach exC net ∧ ∀ j ∈ [2, 3, 1], ∃ blk c
     have hj' : j = 2 ∨ j = 3 ∨ j = 1 := by rw [hl] at hj; simpa using hj
     rw [hn, ho]
     rcases hj' with rfl | rfl | rfl
-    · refine ⟨hj, ⟨rfl, ⟨exPP, by decide, rfl, rfl, by decide⟩, ⟨by decide, by decide⟩⟩, by decide, fun _ => by decide⟩
-    · refine ⟨hj, ⟨rfl, ⟨exPP, by decide, rfl, rfl, by decide⟩, ⟨by decide, by decide⟩⟩, by decide, fun _ => by decide⟩
-    · refine ⟨hj, ⟨rfl, ⟨exPP, by decide, rfl, rfl, by decide⟩, ⟨by decide, by decide⟩⟩, by decide, fun h => absurd hl.symm h⟩
+    · refine ⟨hj, ⟨rfl, ⟨exPP, by decide, rfl, rfl, by decide⟩, ⟨by decide, by decide⟩⟩, by decide, fun _ => by decide,
+        fun _ => Or.inr (Or.inr ⟨3, by decide, by decide⟩)⟩
+    · refine ⟨hj, ⟨rfl, ⟨exPP, by decide, rfl, rfl, by decide⟩, ⟨by decide, by decide⟩⟩, by decide, fun _ => by decide,
+        fun _ => Or.inr (Or.inr ⟨2, by decide, by decide⟩)⟩
+    · refine ⟨hj, ⟨rfl, ⟨exPP, by decide, rfl, rfl, by decide⟩, ⟨by decide, by decide⟩⟩, by decide, fun h => absurd hl.symm h, fun h => absurd hl.symm h⟩
   obtain ⟨net', hr', _, hc⟩ := good_view_decides exWF 0 99 exBlock [2, 3] exCrew hr hside hpre
   refine ⟨net', hr', ?_⟩
   intro j hj
@@ -904,12 +923,7 @@ theorem ex_good_view_after_view_change :
   have hA2 : TraceA2 net.trace := by rw [ht]; exact (List.append_nil _).symm ▸ C11Net.exVC_traceA2
   have hl : ldr exC 1 = 2 := by decide
   have crew : Crew exC 1 [1, 3] := by
-    refine ⟨by decide, by decide, by decide, ?_, ?_, by decide⟩
-    · intro j hj
-      have : j = 1 ∨ j = 3 := by simpa using hj
-      rcases this with rfl | rfl
-      · exact ⟨3, by decide, by decide⟩
-      · exact ⟨1, by decide, by decide⟩
+    refine ⟨by decide, by decide, by decide, ?_, by decide⟩
     intro k hk
     have : k = 1 ∨ k = 3 ∨ k = 2 := by rw [hl] at hk; simpa using hk
     rcases this with rfl | rfl | rfl <;> exact ⟨rfl, ⟨_, 1⟩, by decide, rfl⟩
@@ -957,6 +971,50 @@ theorem ex_good_view_normal_case :
       rcases this with rfl | rfl
       · exact ⟨hj, rfl, by decide, ⟨rfl, rfl, by decide, by decide⟩, by decide, by decide, ⟨by decide, by decide⟩⟩
       · exact ⟨hj, rfl, by decide, ⟨rfl, rfl, by decide, by decide⟩, by decide, by decide, ⟨by decide, by decide⟩⟩)
+    (by rw [hl, hn]; decide) (by rw [hl, hn]; exact ⟨by decide, by decide⟩)
+  refine ⟨net', hr', ?_⟩
+  intro j hj
+  exact hc j (by rw [hl]; simpa using hj)
+
+/-! a crew with a single follower: weights (3, 3, 1, 1), `Q = 6`; the leader (member 1) and member 2
+alone hold quorum weight.  Member 2 is prepared the moment it accepts the proposal, there is no
+PREPARE to deliver to it, and the two COMMITs finish the round for both. -/
+
+def exCw : NetCfg := ⟨7, 5, [⟨1, 3⟩, ⟨2, 3⟩, ⟨3, 1⟩, ⟨4, 1⟩], fun i => i != 4⟩
+
+theorem exWFw : WF exCw := ⟨⟨by decide, by decide⟩, by decide⟩
+
+theorem exCrewW : Crew exCw 0 [2] where
+  nodup := by decide
+  notLeader := by decide
+  nonempty := by decide
+  good := by
+    intro k hk
+    have : k = 2 ∨ k = 1 := by
+      have e : ldr exCw 0 = 1 := by decide
+      rw [e] at hk; simpa using hk
+    rcases this with rfl | rfl <;> exact ⟨rfl, ⟨_, 3⟩, by decide, rfl⟩
+  quorum := by decide
+
+theorem ex_good_view_single_follower :
+    ∃ net, Reach exCw net ∧ ∀ j ∈ [2, 1], ∃ blk cs, Out.commit blk cs ∈ net.outs j := by
+  obtain ⟨net, hr, ⟨hn, hs, ho⟩, _⟩ := sim_reach exWFw (exSched5.take 2) (SimState.init exCw) (Net.init exCw) .init (agrees_init exCw) (by decide)
+  have hl : ldr exCw 0 = 1 := by decide
+  have hshape : PPShape exCw 0 exBlock exPP := ⟨rfl, rfl, rfl, rfl, by decide⟩
+  have hside : Side0pp exCw 0 [2] exPP net := by
+    refine ⟨?_, [2, 3, 4], ?_⟩
+    · intro k hk
+      have : k = 2 ∨ k = 1 := by rw [hl] at hk; simpa using hk
+      rw [hs]
+      rcases this with rfl | rfl <;> decide
+    · rw [hl, ho]; exact C11Net.mem_sendsOf (by decide)
+  obtain ⟨net', hr', _, hc⟩ := good_view_from_preprepare exWFw 0 exBlock [2] exCrewW exPP (fun _ => [.verdict true none]) hshape hr hside
+    (by
+      intro j hj
+      have : j = 2 := by simpa using hj
+      rw [hn]
+      subst this
+      exact ⟨hj, rfl, by decide, ⟨rfl, rfl, by decide, by decide⟩, by decide, by decide, ⟨by decide, by decide⟩⟩)
     (by rw [hl, hn]; decide) (by rw [hl, hn]; exact ⟨by decide, by decide⟩)
   refine ⟨net', hr', ?_⟩
   intro j hj
